@@ -4,7 +4,7 @@
    (ok / exception / end of stream), of every connect, the delivery of a gevent.Timeout, the order in which greenlets run
    and (Mux) the clock and the ping loop's random draws: "for all label sequences" = for every fault position, fault
    kind, in-flight set and schedule.  Serial.run also enforces the owner contract [Serial.usage_ok] (requests are issued
-   after Open() completed, a sink is opened once). *)
+   after Open() completed; Open() is not called on a sink that carries a request; re-opening a closed sink is allowed). *)
 From Scales Require Import Model.Base Model.Transport Proofs.TransportP Proofs.TransportMuxP.
 Import Transport.
 Local Open Scope Z_scope.
@@ -41,6 +41,29 @@ Proof.
   intros ls s e0 R O. apply open_fail; [exact (run_inv ls init s e0 inv_init R) | assumption].
 Qed.
 Print Assumptions C08_serial_open_fail.
+
+(* Incarnations.  A closed or faulted transport may be opened again; whatever happened before,
+   (a) a successful connect of Open() - the first one or a re-open - makes the transport report Open with _state = Open;
+   (b) while _state = Open every failing operation with a call in flight (failing write / read, refused re-connect
+       inside the time-out handler) raises on_faulted exactly once and leaves the transport Closed - the fault signal is
+       per incarnation, not per object;
+   (c) an established incarnation (_state = Open) ends only with on_faulted or with the owner's Close(). *)
+Theorem C08_serial_incarnation : forall ls s e0,
+  run init ls = Some (s, e0) ->
+  (opn s = Some OConn ->
+     exists s', step s (LOConn true) = Some (s', []) /\ cst s' = Open /\ sk s' = SConn /\ reported s' = Open) /\
+  (cst s = Open -> forall c stg l, proc s = Some (c, stg) -> fault_label stg l = true ->
+     exists s' e, step s l = Some (s', e) /\ nfaults e = 1 /\ reported s' = Closed /\ posts e = [(c, fail_kind l)]) /\
+  (cst s = Open -> forall l s' e, step s l = Some (s', e) ->
+     cst s' = Open \/ (cst s' = Closed /\ (nfaults e = 1 \/ is_close l = true))).
+Proof.
+  intros ls s e0 R. pose proof (run_inv ls init s e0 inv_init R) as I. split; [|split].
+  - intros O. destruct (open_ok s O) as (s' & H1 & H2 & H3 & H4 & _). exists s'. repeat split; assumption.
+  - intros C c stg l P F. destruct (fail_once s c stg l I P F) as (s' & e & H1 & H2 & H3 & H4 & H5 & H6 & H7).
+    exists s', e. rewrite (established_reported s l C) in H5. repeat split; assumption.
+  - intros C l s' e St. eapply established_ends; eassumption.
+Qed.
+Print Assumptions C08_serial_incarnation.
 
 (* The pure time-out path: the Timeout is deliverable at every blocking stage, and when the re-open succeeds the call
    gets exactly one TimeoutError, _processing is cleared, no fault is raised and the transport is connected again. *)
@@ -103,6 +126,14 @@ Example C08_serial_example :
   Some ({| sk := SNone; wopen := false; cst := Closed; proc := None; openres := false; opn := None; seen := [2; 1] |},
         [ConnBegin; Accepted 1; Wire 1; ConnBegin; Faulted; Post 1 KTimeout; Accepted 2; Post 2 KErr]).
 Proof. vm_compute. reflexivity. Qed.
+
+(* non-vacuity for incarnations: Close(), successful re-open, time-out with refused re-connect: one fault signal in the
+   second incarnation *)
+Example C08_serial_reopen_example :
+  exists s e, run init [LOpen; LOStart; LOConn true; LClose false; LOpen; LOStart; LOConn true; LReq 1; LStart false;
+                        LWrite IoOk; LTimeout; LReconn false] = Some (s, e) /\
+    nfaults e = 1 /\ posts e = [(1, KTimeout)] /\ reported s = Closed.
+Proof. eexists. eexists. split; [vm_compute; reflexivity|]. cbn. repeat split. Qed.
 
 (* ------------------------------------------------------------------------------------------------- *)
 (* ThriftMux transport                                                                                 *)
